@@ -123,15 +123,9 @@ impl Property for C20 {
                 cfg.allow_other = rng.chance(1, 2);
                 cfg.max_insts = cfg.max_insts.max(3);
                 let mut stream = gen_stream(rng, cfg);
-                if rng.chance(1, 5) {
-                    // ext inst import + ext inst (name rendering path of the disassembler)
-                    let imp = MInst {
-                        opcode: s.op("ExtInstImport"),
-                        rtype: None,
-                        rid: Some(900),
-                        ops: vec![MOp::S(if rng.chance(1, 2) { "GLSL.std.450".into() } else { "OpenCL.std".into() })],
-                    };
-                    stream.insts.insert(0, imp);
+                if rng.chance(1, 4) {
+                    // ext inst import + ext inst with boundary numbers (name rendering path of the disassembler)
+                    crate::producer::plant_ext_inst(rng, &mut stream);
                 }
                 if rng.chance(1, 4) {
                     stream.insts.push(MInst {
@@ -247,8 +241,12 @@ impl Property for C20 {
         } else if String::from_utf8_lossy(&out.stderr).contains("panicked") {
             let err = String::from_utf8_lossy(&out.stderr).to_string();
             let site = err.lines().find(|l| l.contains("panicked")).unwrap_or("").to_string();
-            let site_norm: String = site.chars().map(|c| if c.is_ascii_digit() { '#' } else { c }).collect();
-            mk("stderr-panic", site_norm.chars().take(90).collect(), format!("exit {:?}{}; stderr: {}", out.code, inj, err))
+            // "thread 'main' (1234) panicked at file:LINE:COL:" -> "panicked at file"
+            let at = site.split("panicked at ").nth(1).unwrap_or(&site);
+            let file = at.split(':').next().unwrap_or(at).trim().to_string();
+            let msg = err.lines().skip_while(|l| !l.contains("panicked")).nth(1).unwrap_or("").to_string();
+            let pi = PanicInfo { file, line: 0, msg };
+            mk("stderr-panic", pi.locus(), format!("exit {:?}{}; stderr: {}", out.code, inj, err))
         } else if out.code != Some(0) {
             mk("exit-status", format!("exit={:?}", out.code), format!("rspirv-dis exited with {:?}{}; stderr: {}", out.code, inj, String::from_utf8_lossy(&out.stderr)))
         } else if out.stdout != expected.as_bytes() {
